@@ -333,7 +333,7 @@ impl<'a> Gen<'a> {
         let ps = self.positions();
         if ps.is_empty() { return self.op_create_position(); }
         let closed: Vec<_> = ps.iter().filter(|p| !p.open).collect();
-        let p = if !closed.is_empty() && self.r.chance(3, 4) { closed[self.r.below(closed.len() as u64) as usize] } else { &ps[self.r.below(ps.len() as u64) as usize] };
+        let p = if !closed.is_empty() && self.r.chance(1, 2) { closed[self.r.below(closed.len() as u64) as usize] } else { &ps[self.r.below(ps.len() as u64) as usize] };
         let owner = self.run.h.w.n(p.receiver.as_str());
         let sender = if self.r.chance(1, 12) { pick_user(self.r).to_string() } else { owner };
         // sometimes move time to the unlock boundary first
@@ -346,7 +346,7 @@ impl<'a> Gen<'a> {
                 }
             }
         }
-        let em = match self.r.below(4) { 0 => "true", 1 => "false", 2 => "true", _ => "-" };
+        let em = match self.r.below(6) { 0 | 1 | 2 | 3 => "true", 4 => "false", _ => "-" };
         self.emit(format!("tx {} 0 fm withdrawpos {} {}", sender, p.identifier, em));
     }
 
@@ -380,12 +380,13 @@ impl<'a> Gen<'a> {
     pub fn op_create_farm(&mut self) {
         let Some(lp) = self.some_lp() else { return self.op_provide() };
         let cur = self.cur_epoch();
-        let start = match self.r.below(5) { 0 => "-".to_string(), 1 => cur.to_string(), _ => (cur + 1 + self.r.below(3)).to_string() };
+        let start = match self.r.below(8) { 0 | 1 | 2 => "-".to_string(), 3 => cur.to_string(), 4 | 5 => (cur + 1).to_string(), _ => (cur + 1 + self.r.below(3)).to_string() };
         let s_num = start.parse::<u64>().unwrap_or(cur + 1);
         let end = match self.r.below(4) { 0 => "-".to_string(), _ => (s_num + 1 + self.r.below(20)).to_string() };
         let ad = match self.r.below(5) { 0 => lp.clone(), _ => BASE_DENOMS[self.r.below(6) as usize].to_string() };
         let aa = match self.r.below(5) { 0 => 999, 1 => 1000, _ => 1000 + self.r.below(10_000_000) as u128 };
-        let sender = pick_user(self.r);
+        // farms are often created by the same account (several active farms sharing an owner)
+        let sender = if self.r.chance(1, 2) { "u1" } else { pick_user(self.r) };
         let have = self.run.h.w.balance(sender, &ad);
         let aa = if BASE_DENOMS.contains(&ad.as_str()) { aa } else { aa.min(have / 2) };
         let asset = coin(aa, ad.clone());
@@ -459,7 +460,7 @@ pub fn gen_cfg(r: &mut Rng) -> WorldCfg {
         2 => { c.farm_fee = coin(1000, "uusd"); }
         _ => {}
     }
-    c.max_concurrent_farms = 1 + r.below(3) as u32;
+    c.max_concurrent_farms = 1 + r.below(4) as u32;
     c.emergency_penalty = Decimal::percent([0, 2, 10, 50, 100][r.below(5) as usize]);
     c
 }
@@ -529,6 +530,8 @@ pub fn gen_fm_case(r: &mut Rng, id: u64, len: u64, faults: bool, o: &mut Out) {
     }
     g.o.raw("end");
 }
+
+pub fn run_placeholder() {}
 
 pub fn run(kind: &str, seed: u64, cases: u64, replay: Option<&str>, o: &mut Out) {
     if let Some(p) = replay {
